@@ -202,6 +202,53 @@ func (m *c08Mon) After(w *world.World, op world.Op, res world.Res, pre interface
 	return out
 }
 
+// OnState: a live tree that has not been modified since it was persisted as (or loaded from) root R is a
+// persisted version with root name R: it must hold what R named when it was written, and what the
+// bytes stored under R decode to.
+func (m *c08Mon) OnState(w *world.World, hist []world.Op) []explore.Finding {
+	if w.Store == nil {
+		return nil
+	}
+	cfg := w.Cfg
+	var out []explore.Finding
+	for slot, t := range w.Trees {
+		if t == nil || !w.Base[slot].Valid || len(w.Mod[slot]) > 0 {
+			continue
+		}
+		b := w.Base[slot]
+		got := w.ReadContents(t)
+		if got.Bad != "" || b.Contents.Bad != "" {
+			continue
+		}
+		if !got.Equal(b.Contents) {
+			out = append(out, explore.Finding{Sig: "C08|root-name-no-longer-names-its-contents", What: "a tree not modified since it was persisted as / loaded from a root holds other contents than that root name named then", Detail: fmt.Sprintf("slot %d root %q: then %v, now %v", slot, b.Link, b.Contents, got)})
+			continue
+		}
+		sn, err := codecFor(cfg).Walk(cfg.KS, storeGet(w.Store), b.Link, nil)
+		if err != nil {
+			continue // a missing or undecodable node: judged by C03 / C05
+		}
+		n := 0
+		okKeys := true
+		ref.Flatten(sn, func(k interface{}, rawV []byte) {
+			n++
+			found := false
+			for i := range got.M {
+				if cfg.KS.Cmp(cfg.Key(i), k) == 0 {
+					found = true
+				}
+			}
+			if !found {
+				okKeys = false
+			}
+		})
+		if n != len(got.M) || !okKeys {
+			out = append(out, explore.Finding{Sig: "C08|stored-bytes-of-root-name-hold-other-contents", What: "the bytes stored under a root name decode to other keys than the unmodified tree with that root name holds", Detail: fmt.Sprintf("slot %d root %q: tree %v, stored entries %d", slot, b.Link, got, n)})
+		}
+	}
+	return out
+}
+
 // ---------------- C05: persist then load is the identity ----------------
 
 type c05Mon struct {
